@@ -3,6 +3,9 @@
   several processes on one global path.  Every operation is
       acquire the inter-process cache lock ; (open shelf ; read | write | delete ; close)+ ;
       release
+  `get` retries a failed open of the shelf (transient `dbm.gnu.error`) up to `maxOpenRetry`
+  times (the failure after that propagates: the operation fails) WHILE HOLDING THE LOCK:
+  label `retry p`, which only counts the failed attempt.
   (`bulk_set`: one write per item inside ONE critical section).  The disk is a map
   key ↦ optional value (the record '0' of the per-key shelf).
 -/
@@ -48,6 +51,7 @@ structure CProc where
   pending : List CAcc := []             -- accesses left in the current critical section
   cur : Option COp := none              -- operation in progress (lock held)
   got : Option Val := none              -- value read by the current `get`
+  tries : Nat := 0                      -- failed open attempts of the current `get`
 deriving Repr, Inhabited
 
 structure CacheSt where
@@ -60,7 +64,12 @@ inductive CacheLbl
   | acquire (p : Nat)
   | access (p : Nat)
   | release (p : Nat)
+  | retry (p : Nat)                     -- a failed open inside `get`: sleep, try again
 deriving Repr, DecidableEq, Inhabited
+
+/-- `max_open_retry` of `MPCacheSimple.get`: the error propagates once more than this many
+    attempts have failed -/
+def maxOpenRetry : Nat := 10
 
 def updP (f : Nat → CProc) (p : Nat) (v : CProc) : Nat → CProc := fun x => if x = p then v else f x
 
@@ -70,7 +79,8 @@ def cacheStep (s : CacheSt) : CacheLbl → Option CacheSt
     if s.lock = none ∧ q.cur = none then
       match q.todo with
       | op :: rest =>
-        let q' : CProc := { todo := rest, pending := op.accesses, cur := some op, got := none }
+        let q' : CProc :=
+          { todo := rest, pending := op.accesses, cur := some op, got := none, tries := 0 }
         some { s with lock := some p, procs := updP s.procs p q' }
       | [] => none
     else none
@@ -98,6 +108,15 @@ def cacheStep (s : CacheSt) : CacheLbl → Option CacheSt
         let e : CDone := { proc := p, op := op, ret := q.got }
         some { s with lock := none, procs := updP s.procs p q', log := s.log ++ [e] }
       | none => none
+    else none
+  | .retry p =>
+    let q := s.procs p
+    if s.lock = some p ∧ q.tries < maxOpenRetry then
+      match q.pending with
+      | .read _ :: _ =>
+        let q' : CProc := { q with tries := q.tries + 1 }
+        some { s with procs := updP s.procs p q' }
+      | _ => none
     else none
 
 def cacheRun (s : CacheSt) : List CacheLbl → Option CacheSt
